@@ -61,7 +61,7 @@ def replay(ctx, case):
     if e["ev"] != "ord":
         return run(ctx)
     cpath = os.path.join(ctx.tmp, "one.ndjson")
-    vf.write_ndjson(cpath, [dict(flow=e["flow"], price=e["price"], us=e["us"], q=e["q"])])
+    vf.write_ndjson(cpath, [dict(flow=e["flow"], price=e["price"], us=e["us"], q=e["q"], sx=e.get("sellerSlen", 25) - 25)])
     out = os.path.join(ctx.tmp, "one-out.ndjson")
     ctx.run_vh(["ord", "-cases", cpath, "-out", out, "-n", 0])
     judge(ctx, [x for x in vf.read_ndjson(out) if x["ev"] == "ord"])
